@@ -1,5 +1,6 @@
 //! C22 / C23: `LineIndex` vs the Lean `Text` model, plus the properties' own oracles evaluated on
 //! the implementation (independent of the model).
+use emmylua_code_analysis::{FileId, LuaDocument};
 use emmylua_parser::LineIndex;
 use rowan::TextSize;
 use serde_json::json;
@@ -72,6 +73,74 @@ fn impl_grid(t: &str, xl: usize, xc: usize) -> Result<String, String> {
             .map(|l| (0..maxc + xc).map(|c| opt(li.get_offset(l, c, t))).collect::<Vec<_>>().join(","))
             .collect();
         format!("starts={} lc={} off={}", starts.join(","), lcs.join(","), offs.join(";"))
+    })
+}
+
+/// the same grid computed through `LuaDocument` (vfs/document.rs) and the remaining `LineIndex`
+/// entry points; must be identical to the `LineIndex` grid. Also checks the wrappers against each
+/// other: get_col, get_line, get_col_offset_at_line, to_lsp_position, to_lsp_range, to_rowan_range,
+/// get_line_range. Returns (grid, inconsistencies).
+fn doc_grid(t: &str, xl: usize, xc: usize) -> Result<(String, Vec<String>), String> {
+    let t2 = t.to_string();
+    vh_common::catch(move || {
+        let t = t2.as_str();
+        let li = LineIndex::parse(t);
+        let path = std::path::PathBuf::from("/v/doc.lua");
+        let doc = LuaDocument::new(FileId { id: 0 }, &path, t, &li);
+        let mut bad = Vec::new();
+        let n = doc.get_line_count();
+        let starts: Vec<String> = (0..n).map(|l| opt(doc.get_offset(l, 0))).collect();
+        let bs = boundaries(t);
+        let lcs: Vec<String> = bs
+            .iter()
+            .map(|&o| {
+                let ts = TextSize::new(o as u32);
+                let lc = doc.get_line_col(ts);
+                if doc.get_col(ts) != lc.map(|x| x.1) { bad.push(format!("get_col({o}) = {:?} but get_line_col = {lc:?}", doc.get_col(ts))); }
+                if li.get_col(ts, t) != lc.map(|x| x.1) { bad.push(format!("LineIndex::get_col({o}) differs from get_line_col")); }
+                if doc.get_line(ts) != lc.map(|x| x.0) { bad.push(format!("get_line({o}) = {:?} but get_line_col = {lc:?}", doc.get_line(ts))); }
+                if li.get_line_with_start_offset(ts).map(|x| x.0) != lc.map(|x| x.0) { bad.push(format!("get_line_with_start_offset({o}) line differs")); }
+                let lp = doc.to_lsp_position(ts).map(|p| (p.line as usize, p.character as usize));
+                if lp != lc { bad.push(format!("to_lsp_position({o}) = {lp:?} but get_line_col = {lc:?}")); }
+                match lc { Some((l, c)) => format!("{l}:{c}"), None => "none".into() }
+            })
+            .collect();
+        // ranges between boundaries (a few): to_lsp_range and back
+        for w in bs.windows(2).take(24).chain(bs.iter().step_by(3).collect::<Vec<_>>().windows(2).map(|w| [*w[0], *w[1]]).collect::<Vec<_>>().iter().map(|x| &x[..])) {
+            let r = rowan::TextRange::new(TextSize::new(w[0] as u32), TextSize::new(w[1] as u32));
+            let lr = doc.to_lsp_range(r);
+            let exp = match (doc.get_line_col(r.start()), doc.get_line_col(r.end())) {
+                (Some(a), Some(b)) => Some(((a.0 as u32, a.1 as u32), (b.0 as u32, b.1 as u32))),
+                _ => None,
+            };
+            let got = lr.map(|x| ((x.start.line, x.start.character), (x.end.line, x.end.character)));
+            if got != exp { bad.push(format!("to_lsp_range({w:?}) = {got:?}, expected {exp:?}")); }
+            if let Some(x) = lr {
+                let back = doc.to_rowan_range(x);
+                if back != Some(r) { bad.push(format!("[C22] to_rowan_range(to_lsp_range({w:?})) = {back:?}")); }
+            }
+        }
+        let mut maxc = 0usize;
+        for l in 0..n {
+            let s = u32::from(li.get_line_offset(l).unwrap()) as usize;
+            let e = li.get_line_offset(l + 1).map(|x| u32::from(x) as usize).unwrap_or(t.len());
+            maxc = maxc.max(t[s..e].encode_utf16().count());
+            // get_line_range: [start, next start) or [start, len) on the last non-empty line
+            let lr = doc.get_line_range(l);
+            let exp = if e > s || l + 1 < n { Some((s as u32, e as u32)) } else { None };
+            if lr.map(|r| (u32::from(r.start()), u32::from(r.end()))) != exp { bad.push(format!("get_line_range({l}) = {lr:?}, expected {exp:?}")); }
+        }
+        let offs: Vec<String> = (0..n + xl)
+            .map(|l| (0..maxc + xc).map(|c| {
+                let o = doc.get_offset(l, c);
+                let rel = doc.get_col_offset_at_line(l, c);
+                let st = li.get_line_offset(l);
+                let exp_rel = match (o, st) { (Some(o), Some(st)) => Some(o - st), _ => None };
+                if rel != exp_rel { bad.push(format!("[C22] get_col_offset_at_line({l},{c}) = {rel:?}, get_offset - line start = {exp_rel:?}")); }
+                opt(o)
+            }).collect::<Vec<_>>().join(","))
+            .collect();
+        (format!("starts={} lc={} off={}", starts.join(","), lcs.join(","), offs.join(";")), bad)
     })
 }
 
@@ -170,11 +239,36 @@ pub fn run(args: &Args, report: &mut Report) {
         texts.extend(gen_text::all_texts(&["a", "😀", "\n", "\r"], 5));
         for _ in 0..4000 { texts.push(gen_text::text(&mut rng, 30)); }
     }
-    report.rule = "texts over {ASCII, BMP, astral, \\n, \\r, \\r\\n, BOM}: corpus + exhaustive small texts + seeded random; per text every char-boundary offset and a (line, col) grid incl. missing lines and columns past the end; a text is non-trivial when it has >= 2 lines or a non-ASCII char; distinct by content".into();
+    if args.replay.is_none() {
+        // line-width sweeps: every terminator x filler class x width 0..=130 (catches block-wise scanners)
+        for term in ["\n", "\r\n", "\r"] {
+            for filler in ["a", "é", "😀"] {
+                for w in 0..=130usize {
+                    if filler != "a" && w > 70 { continue; }
+                    let mut t = filler.repeat(w);
+                    t.push_str(term);
+                    t.push('x');
+                    t.push_str(term);
+                    texts.push(t);
+                }
+            }
+        }
+        for w in 0..=70usize {
+            texts.push(format!("{}\r\n{}\r\n", "b".repeat(w), "c".repeat(70 - w)));
+            texts.push(format!("{}\r{}\n{}\r", "b".repeat(w), "é".repeat(w % 7), "c".repeat(70 - w)));
+        }
+        let n_long = if args.thorough() { 20_000 } else { 300 };
+        for _ in 0..n_long { texts.push(gen_text::text(&mut rng, 160)); }
+    }
+    report.rule = "texts over {ASCII, BMP, astral, \\n, \\r, \\r\\n, BOM}: corpus + exhaustive small texts + width sweeps 0..130 per terminator/filler + seeded random (short and up to 160 pieces); per text every char-boundary offset and a (line, col) grid incl. missing lines and columns past the end; a text is non-trivial when it has >= 2 lines or a non-ASCII char; distinct by content".into();
     let mut seen = HashSet::new();
     let reqs: Vec<String> = texts.iter().map(|t| format!("text.grid {} 2 3", hex(t))).collect();
     let model = run_driver(&reqs);
     let want23 = args.prop == "C23";
+    // C23's theorems concern line splitting and columns (starts, lc); C22's concern lc and off
+    let view = |g: &str| -> String {
+        if want23 { g.split(" off=").next().unwrap_or(g).to_string() } else { g.to_string() }
+    };
     for (t, m) in texts.iter().zip(model.iter()) {
         report.evaluations += 1;
         let nontrivial = t.contains('\n') || t.contains('\r') || !t.is_ascii();
@@ -185,11 +279,25 @@ pub fn run(args: &Args, report: &mut Report) {
         report.add("positions", (t.chars().count() + 1) as u64);
         let i = impl_grid(t, 2, 3);
         let istr = match &i { Ok(s) => format!("ok {s}"), Err(e) => format!("err panic ({e})") };
-        if &istr != m {
+        if view(&istr) != view(m) {
             report.mismatch(json!({"input": {"text_hex": hex(t), "text": t}, "model": m, "impl": istr,
                 "tie": "correspondence text.grid (LineIndex vs Text model)"}));
         } else {
             report.traces_validated += 1;
+        }
+        // LuaDocument wrappers and the other LineIndex entry points must agree with the same grid
+        match doc_grid(t, 2, 3) {
+            Ok((g, bad)) => {
+                if view(&format!("ok {g}")) != view(m) {
+                    report.mismatch(json!({"input": {"text_hex": hex(t), "text": t}, "model": m, "impl": format!("ok {g}"),
+                        "tie": "correspondence text.grid (LuaDocument vs Text model)"}));
+                }
+                let bad: Vec<String> = bad.into_iter().filter(|b| if want23 { !b.starts_with("[C22]") } else { true }).collect();
+                if let Some(b) = bad.first() {
+                    report.oracle_failure(json!({"input": {"text_hex": hex(t), "text": t}, "what": format!("conversion entry points disagree: {b}"), "all": bad.len(), "class": null}));
+                }
+            }
+            Err(e) => report.oracle_failure(json!({"input": {"text_hex": hex(t), "text": t}, "what": format!("panic in a LuaDocument conversion: {e}"), "class": null})),
         }
         let (f22, f23) = oracles(t);
         let fs = if want23 { f23 } else { f22 };
